@@ -270,6 +270,9 @@ type op struct {
 func (o op) String() string {
 	switch o.kind {
 	case "register", "service":
+		if o.id != 0 {
+			return fmt.Sprintf("%s(%q,client-filled-id=%d)", o.kind, o.name, o.id)
+		}
 		return fmt.Sprintf("%s(%q)", o.kind, o.name)
 	case "update":
 		return fmt.Sprintf("update(%d,%q,%s)", o.id, o.name, o.eps)
@@ -281,9 +284,12 @@ func (o op) String() string {
 
 func alphabet() []op {
 	var a []op
-	for _, n := range []string{"a", "b", ""} {
+	for _, n := range []string{"a", "b", "", "A"} {
 		a = append(a, op{kind: "register", name: n, eps: "tcp://x"})
 	}
+	// a description whose serviceId field the client filled in (recycled
+	// from a lookup): the directory assigns the identifier all the same
+	a = append(a, op{kind: "register", name: "b", id: 1, eps: "tcp://x"}, op{kind: "register", name: "b", id: 9, eps: "tcp://x"})
 	for id := uint32(1); id <= 4; id++ {
 		a = append(a, op{kind: "ready", id: id}, op{kind: "unregister", id: id})
 		a = append(a, op{kind: "update", id: id, name: "a", eps: "tcp://y"}, op{kind: "update", id: id, name: "b", eps: "tcp://y"})
@@ -291,7 +297,7 @@ func alphabet() []op {
 			a = append(a, op{kind: "update", id: id, name: "", eps: "tcp://z"})
 		}
 	}
-	for _, n := range []string{"a", "b", "ServiceDirectory"} {
+	for _, n := range []string{"a", "b", "ServiceDirectory", "A", "servicedirectory"} {
 		a = append(a, op{kind: "service", name: n})
 	}
 	a = append(a, op{kind: "services"})
@@ -315,7 +321,7 @@ func apply(p directory.ServiceDirectoryProxy, m *model, o op, hist string) {
 	}
 	switch o.kind {
 	case "register":
-		id, err := p.RegisterService(info(o.name, 0, o.eps))
+		id, err := p.RegisterService(info(o.name, o.id, o.eps))
 		mid, ok := m.register(o.name, o.eps)
 		if ok != (err == nil) {
 			fail("answer-differs", "implementation error=%v, model accepts=%v", err, ok)
@@ -780,7 +786,7 @@ func init() {
 	reg.Register(&reg.Scenario{Property: "C15", Name: "ready-then-unregister", Body: pipelined, Quick: 2, Thorough: 3,
 		Doc: "one client: register, ready, unregister of a and b without pause; events exactly once and added before removed on the subscriber's connection"})
 	reg.Register(&reg.Scenario{Property: "C15", Name: "sequential-3", Body: sequential(3, false), Quick: 0, Thorough: 0,
-		Doc: "all sequences of <=3 operations of a 23-operation alphabet (register/ready/unregister/update/service/services over names a,b,'' and ids 1..4) through a remote proxy, compared step by step with the reference registry; events compared at the end"})
+		Doc: "all sequences of <=3 operations of a 28-operation alphabet (register/ready/unregister/update/service/services over names a,b,A,'' and ids 1..4, registrations with a client-filled serviceId, lookups of case twins) through a remote proxy, compared step by step with the reference registry; events compared at the end"})
 	reg.Register(&reg.Scenario{Property: "C15", Name: "sequential-4", Body: sequential(4, false), Quick: -1, Thorough: 0,
 		Doc: "all sequences of <=4 operations"})
 	reg.Register(&reg.Scenario{Property: "C15", Name: "sequential-from-populated-2", Body: sequential(2, true), Quick: 0, Thorough: 0,
